@@ -49,3 +49,35 @@ pub fn fnv(data: &[u8]) -> u64 {
     }
     h
 }
+
+/// A `log` sink that EVALUATES every record's arguments (so that code inside logging statements runs, as it does in
+/// an application that enables logging) without allocating, and discards the text.
+pub struct EvalLogger;
+
+struct Sink(usize);
+impl std::fmt::Write for Sink {
+    fn write_str(&mut self, s: &str) -> std::fmt::Result {
+        self.0 = self.0.wrapping_add(s.len());
+        Ok(())
+    }
+}
+
+impl log::Log for EvalLogger {
+    fn enabled(&self, _: &log::Metadata) -> bool {
+        true
+    }
+    fn log(&self, r: &log::Record) {
+        use std::fmt::Write;
+        let mut s = Sink(0);
+        let _ = write!(s, "{}", r.args());
+        std::hint::black_box(s.0);
+    }
+    fn flush(&self) {}
+}
+
+static LOGGER: EvalLogger = EvalLogger;
+
+pub fn install_logger(level: log::LevelFilter) {
+    let _ = log::set_logger(&LOGGER);
+    log::set_max_level(level);
+}
